@@ -106,8 +106,16 @@ def shadow_census(repo: Repo, rep, P: str):
                 # table-driven attribute loops (also in private helpers of the constructor) read as the assignments they perform
                 fn = inline.normalize(repo, c, fn)
             params = {a.arg for a in fn.args.args if a.arg != "self"} | {a.arg for a in fn.args.kwonlyargs}
-            loader = is_loader(fname.split(".")[0])
-            writer = is_writer(fname.split(".")[0]) or (fname in ("bytes", "raw_data", "cmid_data", "encoded_values") and fname in c.getters and fn is c.getters[fname])
+            role = fname.split(".")[0]
+            if role.startswith("_") and not role.startswith("__") and role in c.methods:
+                # a private helper plays the part of the one method that uses it (load-time / save-time code moved into a helper)
+                try:
+                    _, aq_ = inline.attributed_to(repo, c.file.rel, f"{c.qualname}.{role}")
+                    role = aq_.split(".")[-1]
+                except Exception:
+                    pass
+            loader = is_loader(role)
+            writer = is_writer(role) or (fname in ("bytes", "raw_data", "cmid_data", "encoded_values") and fname in c.getters and fn is c.getters[fname])
             if loader:
                 n_loader_fns += 1
             if writer:
@@ -197,12 +205,21 @@ def shadow_census(repo: Repo, rep, P: str):
     # is_legacy itself must only be set by load_instrument (+ constructor None)
     samp = repo.cls("Sampler", module="rv.modules.sampler")
     setters = set()
+    from .. import inline as _inl
     for fname, fn in samp.methods.items():
+        owner_name = fname
+        if fname.startswith("_") and not fname.startswith("__"):
+            # a private helper is accounted to the one method that uses it (the rules read it through there)
+            try:
+                _, aq = _inl.attributed_to(repo, samp.file.rel, f"{samp.qualname}.{fname}")
+                owner_name = aq.split(".")[-1]
+            except Exception:
+                owner_name = fname
         for n in walk_no_nested(fn):
             if isinstance(n, ast.Assign) and any(norm(t) == "self.is_legacy" for t in n.targets):
-                setters.add(fname)
+                setters.add(owner_name)
             if isinstance(n, ast.AnnAssign) and norm(n.target) == "self.is_legacy":
-                setters.add(fname)
+                setters.add(owner_name)
     if setters <= {"__init__", "load_instrument"}:
         rep.ok(f"{P}.R1", f"{samp.file.rel}:Sampler", f"is_legacy assigned in {sorted(setters)}")
     else:
@@ -338,7 +355,10 @@ def sampler_replay_guard(repo: Repo, rep, P: str):
     for st in setters:
         t = st.test
         conj = t.values if isinstance(t, ast.BoolOp) and isinstance(t.op, ast.And) else [t]
+        from ..packed import single_defs as _sd, resolve_names as _rn
+        _defs = {k_: v_ for k_, v_ in _sd(rfn).items() if k_ != dparam}
         for c in conj:
+            c = _rn(c, _defs)               # `n = len(data)` handed to a helper that was read through: the test is on len(data)
             txt = norm(c)
             if txt == "not self.is_legacy":
                 continue
